@@ -13,4 +13,7 @@ CONF = {
                       dict(name="FuzzCompat", seconds=180), dict(name="FuzzEscape", seconds=60)]),
     "C16": dict(pkg="props/c16", quick=dict(checks=2000, shards=8, timeout=600), thorough=dict(checks=1500, shards=16, timeout=3600)),
     "C18": dict(pkg="props/c18", quick=dict(checks=2000, shards=8, timeout=600), thorough=dict(checks=50000, shards=16, timeout=3600)),
+    "C20": dict(pkg="props/c20", quick=dict(checks=3000, shards=8, timeout=600), thorough=dict(checks=80000, shards=16, timeout=3600)),
+    "C19": dict(pkg="props/c19", quick=dict(checks=12000, shards=8, timeout=600), thorough=dict(checks=300000, shards=16, timeout=3600),
+                fuzz=[dict(name="FuzzEscapeRoundTrip", seconds=120)]),
 }
